@@ -2,6 +2,7 @@
 statement is, where it starts, what its source text is).  Every random choice comes from the
 random.Random instance passed in, so a (seed, index) pair replays exactly."""
 import random
+import re
 
 BINOPS = ['+', '-', '*', '/', '>', '<', '>=', '<=', '%', '>>', '<<', '!=', '==', '&', '&&', '||', '|', '>>>', '^']
 OPKIND = {'+': 'add_expression', '-': 'sub_expression', '*': 'mul_expression', '/': 'div_expression',
@@ -21,6 +22,14 @@ TYPES_PRIM = ['int', 'long', 'boolean', 'double', 'char']
 EXC = ['IOException', 'RuntimeException', 'Exception', 'IllegalStateException']
 ANNOTS = ['@Override', '@Deprecated', '@Test', '@Nullable']
 WORDS = ['the', 'value', 'of', 'item', 'returns', 'café', 'naïve', '中文', 'x<y', 'a&b', 'quote"q', 'back\\slash', 'tab\there']
+
+
+_strlit = re.compile(r'^"(?:[^"\\\n]|\\.)*"$')
+
+
+def unquote_literal(a):
+    """argument text -> what the property calls 'string literals unquoted': only a single string literal loses its quotes"""
+    return a[1:-1] if _strlit.match(a) else a
 
 
 class Emitter:
@@ -151,7 +160,7 @@ class Gen:
         self.e.w(t)
         return t, 99
 
-    def operand(self, depth, prec, right):
+    def operand(self, depth, prec, right, parent_op=None):
         """operand of a binary operator with precedence prec; parenthesise when needed"""
         e, rng = self.e, self.rng
         s = self.begin()
@@ -164,25 +173,26 @@ class Gen:
             if rng.random() < 0.5:
                 e.w('('); e.tight(); self.binary(depth + 1); e.tight(); e.w(')')
             else:
-                self.binary(depth + 1, min_prec=prec + 1)
+                # `a < b << c` trips tree-sitter-java's generic-type lookahead: no bare shift under < >
+                self.binary(depth + 1, min_prec=prec + 1, exclude=('<<', '>>', '>>>') if parent_op in ('<', '>', '<=', '>=') else ())
         elif r < 0.9:
             self.call(depth + 1)
         else:
             e.w('('); self.paren_inner(depth + 1); e.w(')')
         return self.src_between(s[0], e.n)
 
-    def binary(self, depth, min_prec=1):
+    def binary(self, depth, min_prec=1, exclude=()):
         e, rng = self.e, self.rng
-        ops = [o for o in BINOPS if PREC[o] >= min_prec]
+        ops = [o for o in BINOPS if PREC[o] >= min_prec and o not in exclude]
         if self.f.get('ops'):
             ops = [o for o in ops if o in self.f['ops']] or ops
         if not ops:
             t = rng.choice(IDS); e.w(t); return t, 99
         op = rng.choice(ops)
         s = self.begin()
-        left = self.operand(depth, PREC[op], False)
+        left = self.operand(depth, PREC[op], False, op)
         e.osp(); e.w(op); e.osp()
-        right = self.operand(depth, PREC[op], True)
+        right = self.operand(depth, PREC[op], True, op)
         txt = self.src_between(s[0], e.n)
         self.record('binary', s, op=op, left=left, right=right, text=txt, opkind=OPKIND[op])
         return txt, PREC[op]
@@ -208,8 +218,7 @@ class Gen:
         """fluent chain: head (new X(..) | this.m(..) | m(..)) followed by 1..3 links .m(..), names may repeat"""
         e, rng = self.e, self.rng
         s = self.begin()
-        def unq(a):
-            return a[1:-1] if len(a) >= 2 and a[0] == '"' and a[-1] == '"' else a
+        unq = unquote_literal
         h = rng.random()
         if h < 0.4:
             self.new(depth + 1)
@@ -248,10 +257,7 @@ class Gen:
             e.w(a + '.' + b + '.' + name); qname = name
         e.tight()
         args = self.args(depth)
-        def unq(a):
-            if len(a) >= 2 and a[0] == '"' and a[-1] == '"':
-                return a[1:-1]
-            return a
+        unq = unquote_literal
         txt = self.src_between(s[0], e.n)
         self.record('call', s, name=qname, args=[unq(a) for a in args], rawargs=args, text=txt)
         return txt, 99
@@ -524,6 +530,16 @@ class Gen:
             words.append('static')
         if rng.random() < 0.2:
             words.append('final')
+        if rng.random() < 0.3:
+            # annotations may legally follow keyword modifiers: `public @Override static void f()`
+            kw = [w for w in words if not w.startswith('@')]
+            an = [w for w in words if w.startswith('@')]
+            words = []
+            while kw or an:
+                if an and (not kw or rng.random() < 0.5):
+                    words.append(an.pop(0))
+                else:
+                    words.append(kw.pop(0))
         for w in words:
             e.w(w); e.sp()
         return vis, annots
